@@ -252,6 +252,7 @@ def native_replay(o, workdir, replay_file, tag='n'):
     exe = os.path.join(workdir, 'native_%s_%s' % (re.sub(r'\W', '_', o.name), tag))
     srcs = [src_path(o.src)] + [src_path(s) for s in o.extra_srcs]
     cmd = ['gcc', '-DVF_NATIVE', '-g', '-O0', '-fsanitize=address,undefined', '-fno-sanitize-recover=undefined',
+           '-ffunction-sections', '-fdata-sections', '-Wl,--gc-sections',   # unreached library code may reference units that are not linked
            '-w', '-o', exe] + cc_flags(o, workdir, native=True) + srcs + ['-lm']
     rc, out, err, dt, to = run_cmd(cmd, 300, 16)
     if rc != 0:
